@@ -93,8 +93,8 @@ def cases(tier, seed):
             for pol in POLICIES:
                 yield {"kind": "err", "prog": name, "file": pat, "policy": pol}
                 if len(pat) <= 2:
-                    # a validation-mode comment that names a stop word only: the fail decision still comes from the policy
-                    for vm in ("no-stop", "stop"):
+                    # validation-mode comments naming a stop word, a fail word, or both: each named flag overrides the policy, the others come from it
+                    for vm in ("no-stop", "stop", "fail", "no-fail", "fail, no-stop"):
                         yield {"kind": "err", "prog": name, "file": pat, "policy": pol, "vm": vm}
     # "a run starts valid": a second run on the SAME CsvPaths instance after a run in which fail()/fail_all()/fail_and_stop() executed
     for first in ("failall", "failk", "fas"):
@@ -138,7 +138,13 @@ def run_case(case):
         rows = [list(ROWS[ch]) + ([str(i)] if ch != "b" else []) for i, ch in enumerate(pat)]
         comps = _comps(case)
         vm = case.get("vm")
-        eff = [f for f in pol if f != "stop"] + (["stop"] if (vm == "stop" or (vm is None and "stop" in pol)) else [])
+        words = [w.strip() for w in vm.split(",")] if vm else []
+        eff = list(pol)
+        for flag in ("stop", "fail"):
+            if flag in words:
+                eff = [f for f in eff if f != flag] + [flag]
+            elif "no-" + flag in words:
+                eff = [f for f in eff if f != flag]
         it = refinterp.Interp(comps, True, policy=eff or ["quiet"])
         ret = it.run(rows, set(range(len(rows))), None)
         path = sandbox.write_csv(rows)
